@@ -1,9 +1,9 @@
 package harness
 
 import (
-	"encoding/hex"
 	"bytes"
 	"context"
+	"encoding/hex"
 	"encoding/json"
 	"fmt"
 	"io"
